@@ -140,6 +140,48 @@ Proof.
   inversion Hnd as [|x l Hin _]; subst. exfalso. apply Hin. left. reflexivity.
 Qed.
 
+Lemma NoDup_map_filter {A B} (f : A -> B) (p : A -> bool) l : NoDup (map f l) -> NoDup (map f (filter p l)).
+Proof.
+  induction l as [|a l IH]; intros H; [constructor|]. cbn [map] in H. inversion H as [|x xs Hin Hnd]; subst.
+  cbn [filter]. destruct (p a); [|apply IH; exact Hnd]. cbn [map]. constructor; [|apply IH; exact Hnd].
+  intros Hc. apply Hin. apply in_map_iff in Hc as (y & Hy & Hyin). apply filter_In in Hyin as [Hyin _].
+  apply in_map_iff. exists y. split; assumption.
+Qed.
+
+(* a callable with several required parameters, stated on the signature (Python forbids duplicate parameter names) *)
+Theorem several_required_parameters_refused sg npos kws :
+  NoDup (map pa_name sg) -> (2 <= length (filter required sg))%nat ->
+  forward_accepts (non_default_args false sg) sg npos kws = false.
+Proof.
+  intros Hnd Hl. apply forward_refuses_several_inputs.
+  - rewrite nda_by_kind. apply NoDup_map_filter. exact Hnd.
+  - rewrite nda_by_kind, map_length. exact Hl.
+Qed.
+
+Theorem no_required_parameter_refused sg npos kws : forward_accepts [] sg npos kws = false.
+Proof. destruct npos as [|[|n]]; destruct kws as [|k [|k' ks]]; reflexivity. Qed.
+
+(* complete characterisation: a positional input is accepted exactly when the callable has ONE required parameter and that
+   parameter takes positional arguments *)
+Theorem forward_accepts_iff sg :
+  pos_defaults_ok false sg = true ->
+  (forward_accepts (non_default_args false sg) sg 1 [] = true <->
+   exists p0, filter required sg = [p0] /\ positional (pa_kind p0) = true).
+Proof.
+  intros Hok. split.
+  - intros H. rewrite nda_by_kind in H. unfold forward_accepts in H.
+    destruct (filter required sg) as [|p0 [|p1 r]] eqn:Ef; cbn [map] in H; try discriminate.
+    exists p0. split; [reflexivity|].
+    destruct (forward_call_binds_named_argument sg p0 Hok Ef) as (_ & _ & Hkw).
+    assert (Hreq : required p0 = true).
+    { assert (Hin : In p0 (filter required sg)) by (rewrite Ef; left; reflexivity). apply filter_In in Hin. tauto. }
+    unfold required in Hreq. destruct (pa_kind p0) eqn:Ek; try reflexivity; try discriminate Hreq.
+    rewrite (Hkw eq_refl) in H. discriminate H.
+  - intros (p0 & Ef & Hp).
+    destruct (forward_call_binds_named_argument sg p0 Hok Ef) as (Hn & Hc & _).
+    rewrite Hn. unfold forward_accepts. rewrite (Hc Hp). reflexivity.
+Qed.
+
 (* the old test (by name) and today's (by kind) agree exactly on the signatures that follow the naming
    convention: a parameter is called args/kwargs iff it is variadic *)
 Theorem by_name_agrees_under_convention sg :
